@@ -49,6 +49,21 @@ Theorem C15_2_le_F_le_sqrt_rank_2 (r : nat) (s : nat -> R) : (forall i, 0 <= s i
   maxR r s <= sqrt (@sumR RR r (fun i => s i * s i)) /\ sqrt (@sumR RR r (fun i => s i * s i)) <= sqrt (INR r) * maxR r s.
 Proof. exact (two_le_F_le_sqrt_rank_two r s). Qed.
 
+(* ||A x||_2^2 <= ||A||_inf ||A||_1 ||x||_2^2 for every vector x: every bound-attaining quantity of ||A x|| over unit vectors -- the spectral
+   norm, the largest singular value -- is at most sqrt(||A||_1 ||A||_inf)  (the clause ||A||_2^2 <= ||A||_1 ||A||_inf without defining a supremum) *)
+Theorem C15_norm2_squared_le_norm1_norminf m n (A : qmat RR) (x : nat -> quat RR) :
+  vnorm2 m (matvec n A x) <= norminf m n A * norm1 m n A * vnorm2 n x.
+Proof. exact (schur_test m n A x). Qed.
+(* the spectral norm as the least M with ||A X||_F <= M ||X||_F: the bounds are closed under the operations of the norm axioms, and the
+   Frobenius norm is one of them (||A||_2 <= ||A||_F) *)
+Theorem C15_norm2_bounds_triangle m n (A B : qmat RR) M K : op_bound m n A M -> op_bound m n B K -> op_bound m n (qmadd A B) (M + K).
+Proof. exact (op_bound_triangle m n A B M K). Qed.
+Theorem C15_norm2_bounds_submultiplicative m k n (A B : qmat RR) M K : op_bound m k A M -> op_bound k n B K -> op_bound m n (qmm k A B) (M * K).
+Proof. exact (op_bound_submultiplicative m k n A B M K). Qed.
+Theorem C15_norm2_bounds_homogeneous m n (A : qmat RR) M c : op_bound m n A M -> op_bound m n (qmscale c A) (Rabs c * M).
+Proof. exact (op_bound_homogeneous m n A M c). Qed.
+Theorem C15_norm2_le_frobenius m n (A : qmat RR) : op_bound m n A (normF m n A).
+Proof. exact (op_bound_frobenius m n A). Qed.
 (* spectral_norm_2 / matrix_norm(A, 2), generated from the source: the largest entry of the singular-value vector of classical_qsvd_full(A)
    (that this vector holds the singular values is C05's contract), 0 for an empty one *)
 Lemma lmax_ub (s : list R) x : In x s -> x <= lmax s.
@@ -74,3 +89,5 @@ Print Assumptions C15_norm1_submultiplicative.
 Print Assumptions C15_norminf_submultiplicative.
 Print Assumptions C15_2_le_F_le_sqrt_rank_2.
 Print Assumptions C15_norm2_is_largest_singular_value.
+Print Assumptions C15_norm2_squared_le_norm1_norminf.
+Print Assumptions C15_norm2_bounds_submultiplicative.
